@@ -69,8 +69,9 @@ def main():
             meta["suite_passed_tests"] = passed
             print("suite with change: ok=%s passed=%d" % (ok, passed))
             pydemo = os.path.exists(os.path.join(src, "demo.py"))
+            run_demo = demo
             if pydemo:
-                def demo(wt, target):
+                def run_demo(wt, target):
                     env = dict(ENV, CARGO_TARGET_DIR=target, PYO3_PYTHON="/opt/veriftools/pyvenv/bin/python")
                     rc, out = sh("cargo build --offline --features python --lib 2>&1", cwd=wt, env=env)
                     if rc != 0:
@@ -82,11 +83,11 @@ def main():
                     return rc == 0, out[-1200:]
             else:
                 shutil.copy(os.path.join(src, "demo.rs"), os.path.join(wt, "tests", "seed_demo.rs"))
-            dok, dtail = demo(wt, target)
+            dok, dtail = run_demo(wt, target)
             meta["demo_fails_with_change"] = not dok
             print("demo with change: %s" % ("passes (BAD)" if dok else "fails (good)"))
             sh("git checkout -- src", cwd=wt)
-            dok2, dtail2 = demo(wt, target)
+            dok2, dtail2 = run_demo(wt, target)
             meta["demo_passes_without_change"] = dok2
             print("demo without change: %s" % ("passes (good)" if dok2 else "fails (BAD)"))
             if not dok2:
